@@ -29,7 +29,7 @@ out.append('### 13.5 Seeded changes and the checks that catch them\n')
 out.append('Written by sub-agents that saw only the property text and a scratch worktree; each was confirmed by me '
            '(suite passes with the patch, demonstration fails with it and passes without) and then run against the '
            "property's quick check through `scripts/mutant_scratch.sh` (scratch worktree + `VERIF_REPO`, never /repo). "
-           'All are detected (exit 1 with VIOLATION lines); the last column says what had to be strengthened first. m1-m3 are the first round (written against the pinned tree, some rebased onto the repaired tree), m4-m6 a second round written against the repaired tree for all 20 properties: 53 of those 60 were caught as they were, 7 showed gaps that were closed (C05-m6, C07-m6, C08-m5, C09-m5, C09-m6, C11-m4, C12-m6); closing the C07 gap exposed one more genuine defect (608e2cd). m7-m9 are a third round, whose authors were told what the earlier rounds had changed and asked for other sites and other kinds of mistakes: 39 of 60 were caught as they were, 21 showed gaps, all closed (the notes say how); the types added for them exposed nine further genuine defects of the library (six json encoder/decoder differences from encoding/json, two crashes, one proto wire-format defect), all repaired. m10-m12 are a fourth round under the same instructions: 42 of 60 were caught as they were, 18 showed gaps, all closed (notes); closing the C19 gap showed that the C19 reference model had copied a behaviour of the implementation (zero elements of repeated templates dropped) instead of the statement, which hid a genuine defect (bf2d382), and closing the C07 gap needed a supervisor that ends workers whose runtime has deadlocked after memory corruption (they use no CPU, so the CPU budget never fires). m13-m15 are a fifth round: 41 of 60 were caught as they were, 19 showed gaps, all closed (notes). m16-m18 are a sixth round: 48 of 60 were caught as they were, 12 showed gaps, all closed (notes). m19-m21 (twelve properties) are a seventh round: 23 of 36 were caught as they were, 13 showed gaps, all closed (notes; one of them, written for C14, is a memory-ownership change that the value comparison of C14 cannot see and the ownership check of C10 catches: it is kept as C10-m22). An eighth round (twelve properties, numbered after the last change of each property) added 36: 28 caught as they were, 8 gaps closed (one again an ownership change written for C14 and kept under C10); an author of that round also pointed at three hazards in code the suite does not reach: two were confirmed as genuine defects (7f82da4, c5116f7), repaired, and their shapes added to the C06 monitors (which then detect the pre-fix tree); the third (a nil key in a map keyed by an interface-typed TextMarshaler) panics in encoding/json as well and is outside the supported domain. The thorough run of C02 that was in progress during these rounds reported one violation on the unchanged tree: the known finding number-string-garbage seen through a Decoder (second known line of C02). `scripts/sweep_seeded.sh` re-runs all of them against the current tree.\n')
+           'All are detected (exit 1 with VIOLATION lines); the last column says what had to be strengthened first. m1-m3 are the first round (written against the pinned tree, some rebased onto the repaired tree), m4-m6 a second round written against the repaired tree for all 20 properties: 53 of those 60 were caught as they were, 7 showed gaps that were closed (C05-m6, C07-m6, C08-m5, C09-m5, C09-m6, C11-m4, C12-m6); closing the C07 gap exposed one more genuine defect (608e2cd). m7-m9 are a third round, whose authors were told what the earlier rounds had changed and asked for other sites and other kinds of mistakes: 39 of 60 were caught as they were, 21 showed gaps, all closed (the notes say how); the types added for them exposed nine further genuine defects of the library (six json encoder/decoder differences from encoding/json, two crashes, one proto wire-format defect), all repaired. m10-m12 are a fourth round under the same instructions: 42 of 60 were caught as they were, 18 showed gaps, all closed (notes); closing the C19 gap showed that the C19 reference model had copied a behaviour of the implementation (zero elements of repeated templates dropped) instead of the statement, which hid a genuine defect (bf2d382), and closing the C07 gap needed a supervisor that ends workers whose runtime has deadlocked after memory corruption (they use no CPU, so the CPU budget never fires). m13-m15 are a fifth round: 41 of 60 were caught as they were, 19 showed gaps, all closed (notes). m16-m18 are a sixth round: 48 of 60 were caught as they were, 12 showed gaps, all closed (notes). m19-m21 (twelve properties) are a seventh round: 23 of 36 were caught as they were, 13 showed gaps, all closed (notes; one of them, written for C14, is a memory-ownership change that the value comparison of C14 cannot see and the ownership check of C10 catches: it is kept as C10-m22). An eighth round (twelve properties, numbered after the last change of each property) added 36: 28 caught as they were, 8 gaps closed (one again an ownership change written for C14 and kept under C10); an author of that round also pointed at three hazards in code the suite does not reach: two were confirmed as genuine defects (7f82da4, c5116f7), repaired, and their shapes added to the C06 monitors (which then detect the pre-fix tree); the third (a nil key in a map keyed by an interface-typed TextMarshaler) panics in encoding/json as well and is outside the supported domain. A ninth round (eight properties) added 24: 19 caught as they were, 5 gaps closed (one, written for C02, is kept under C05, whose nesting sub catches it). The thorough run of C02 that was in progress during these rounds reported one violation on the unchanged tree: the known finding number-string-garbage seen through a Decoder (second known line of C02). `scripts/sweep_seeded.sh` re-runs all of them against the current tree.\n')
 out.append('| id | file | change (first sentence of the author\'s summary) | detection |\n|---|---|---|---|')
 for d in sorted(glob.glob(V+'/seeded/*/')):
     m=json.load(open(d+'meta.json'))
